@@ -72,6 +72,18 @@ def facts(c):
     body += "def sleepExcluded : List (String × Nat) := [" + ", ".join(f'("{n}", {l})' for n, l in excluded) + "]\n"
     body += "end CGV.Gen\n"
     c.write_generated("RetryConsts", body)
+    # selector: score bit layout, read types, probe threshold
+    sc = c.facts_consts("internal/locate", ["flagNotAttempted", "flagNormalPeer", "flagPreferLeader", "flagLabelMatches", "flagNotSlow",
+                                            "leaderBusyProbeThreshold"])
+    rt = c.facts_consts("kv", ["ReplicaReadLeader", "ReplicaReadFollower", "ReplicaReadMixed", "ReplicaReadLearner",
+                               "ReplicaReadPreferLeader"])
+    if sc is None or rt is None:
+        return False
+    b2 = "namespace CGV.Gen\n-- internal/locate/replica_selector.go: storeSelectionScore bits, probe threshold; kv.ReplicaReadType values\n"
+    b2 += "".join(f"def {k} : Nat := {sc[k]}\n" for k in sc)
+    b2 += "".join(f"def {k[0].lower() + k[1:]} : Nat := {rt[k]}\n" for k in rt)
+    b2 += "end CGV.Gen\n"
+    c.write_generated("SelectorConsts", b2)
     return True
 
 
@@ -83,38 +95,73 @@ def is_input(op):
 
 
 def triage(c, ops_file, impl_file, model_file, hbin, exe, max_per_sig=2, max_total=14):
-    """stateful triage with per-signature sampling: failing cases are grouped by (what fails, the forever-repeated
-    answer, read/write), the shortest cases of every group are shrunk (ddmin over the input op lines) and classified,
-    so that a frequent known finding cannot hide a different violation"""
-    ops = open(ops_file).read().splitlines()
-    impl = open(impl_file).read().splitlines()
-    model = open(model_file).read().splitlines()
-    n = min(len(ops), len(impl), len(model))
+    """stateful triage, streaming (the thorough streams have >10M lines): counts coverage, groups failing cases by
+    (what fails, the forever-repeated answer, command) and shrinks/classifies the shortest cases of every group, so that a
+    frequent known finding cannot hide a different violation"""
     groups = {}
-    for (a, b) in vcheck.split_cases(ops[:n]):
-        bad = [i for i in range(a, b) if not ops[i].startswith("#") and
-               (impl[i] != model[i] or impl[i].startswith("FAIL") or impl[i].startswith("panic"))]
-        if not bad:
-            continue
-        inputs = [ops[i] for i in range(a, b) if is_input(ops[i])]
-        tail = next((o for o in inputs if o.startswith("go ")), "go ?")
-        cfg = next((o.split() for o in inputs if o.startswith("cfg ")), None)
-        kinds = []
-        for i in bad:
-            if impl[i].startswith("FAIL") or impl[i].startswith("panic"):
-                k = ops[i] + ":" + " ".join(impl[i].split()[:2])
-            else:
-                k = " ".join(ops[i].split()[:2]) + ":model " + " ".join(model[i].split()[:2])
-            if k not in kinds:
-                kinds.append(k)
-        sig = (tuple(kinds[:3]), tail, cfg[1] if cfg else "?")
-        groups.setdefault(sig, []).append(inputs)
-    c.cov["failing_case_groups"] = len(groups)
-    c.cov["failing_cases"] = sum(len(v) for v in groups.values())
-    c.cov["failing_cases_note"] = ("disagreements_checked counts op LINES; all lines of a case that runs into the known finding "
-                                   "(endless NotLeader hint cycle) disagree from the first refused refill on")
+    cov = c.cov
+    n_lines = n_cases = n_bad = n_fail = 0
+    distinct_cases = set()
+    cur_inputs, cur_bad = [], []
+
+    def close_case():
+        nonlocal cur_inputs, cur_bad
+        if cur_inputs:
+            distinct_cases.add(hash(tuple(cur_inputs)))
+        if cur_bad:
+            tail = next((o for o in cur_inputs if o.startswith("go ")), "go ?")
+            cfg = next((o.split() for o in cur_inputs if o.startswith("cfg ")), None)
+            kinds = []
+            for (o, i, m) in cur_bad:
+                if i.startswith("FAIL") or i.startswith("panic"):
+                    k = o + ":" + " ".join(i.split()[:2])
+                else:
+                    k = o.split()[0] + ":model " + " ".join(m.split()[:2])
+                if k not in kinds:
+                    kinds.append(k)
+            sig = (tuple(kinds[:3]), tail, cfg[1] if cfg else "?")
+            g = groups.setdefault(sig, [])
+            if len(g) < 50 or len(cur_inputs) < max(len(x[0]) for x in g):
+                g.append((cur_inputs, [f"{o} | impl: {i} | model: {m}" for (o, i, m) in cur_bad[:3]]))
+        cur_inputs, cur_bad = [], []
+
+    with open(ops_file) as fo, open(impl_file) as fi, open(model_file) as fm:
+        for o, i, m in zip(fo, fi, fm):
+            o, i, m = o.rstrip("\n"), i.rstrip("\n"), m.rstrip("\n")
+            if o.startswith("# case"):
+                close_case()
+                n_cases += 1
+                continue
+            if o.startswith("#"):
+                continue
+            n_lines += 1
+            if is_input(o):
+                cur_inputs.append(o)
+            if len(cov["samples"]) < 6 and n_lines % 200003 == 7:
+                cov["samples"].append({"op": o, "impl": i, "model": m})
+            bad = i != m
+            fail = i.startswith("FAIL") or i.startswith("panic")
+            n_bad += bad
+            n_fail += fail
+            if (bad or fail) and len(cur_bad) < 40:
+                cur_bad.append((o, i, m))
+        close_case()
+    for f in (impl_file, model_file):
+        pass
+    if sum(1 for _ in open(ops_file)) != sum(1 for _ in open(model_file)) or sum(1 for _ in open(ops_file)) != sum(1 for _ in open(impl_file)):
+        c.problems.append(Problem("tie", "stream lengths differ"))
+    cov["evaluations"] += n_lines
+    cov["traces_validated_against_impl"] += n_cases
+    cov["distinct_nontrivial"] += len(distinct_cases)
+    cov["disagreements_checked"] += n_bad
+    cov["property_op_failures"] = cov.get("property_op_failures", 0) + n_fail
+    cov["failing_case_groups"] = len(groups)
+    cov["failing_cases_note"] = ("disagreements_checked counts op LINES; all lines of a case that runs into the known finding "
+                                 "(endless NotLeader hint cycle) disagree from the first refused refill on; distinct_nontrivial = "
+                                 "distinct input cases")
+    cov.setdefault("nonreproducible_disagreements", [])
     # distinct failure kinds first, then the rest
-    order = sorted(groups.items(), key=lambda kv: (min(len(x) for x in kv[1]), str(kv[0])))
+    order = sorted(groups.items(), key=lambda kv: (min(len(x[0]) for x in kv[1]), str(kv[0])))
     seen_kind = set()
     first, rest = [], []
     for sig, cases in order:
@@ -122,23 +169,31 @@ def triage(c, ops_file, impl_file, model_file, hbin, exe, max_per_sig=2, max_tot
         seen_kind.add(sig[0])
     total = 0
     for sig, cases in first + rest:
-        for case_ops in sorted(cases, key=len)[:max_per_sig]:
+        for case_ops, first_bad in sorted(cases, key=lambda x: len(x[0]))[:max_per_sig]:
             if total >= max_total:
                 return
             total += 1
+            # a disagreement that three fresh executions of the very same case do not show again has no replayable input:
+            # it is recorded in the evidence (with the lines that differed), not reported as a violation
+            if not any(c._fails(case_ops, hbin, exe, None) for _ in range(3)):
+                cov["nonreproducible_disagreements"].append({"case": case_ops, "lines": first_bad})
+                continue
             shrunk = c.shrink(case_ops, hbin, exe, None, budget=60)
             isprop, det = c.classify_case(shrunk, hbin, exe, None)
             c.problems.append(Problem("property" if isprop else "correspondence",
                                       "property oracle fails on the implementation" if isprop else
-                                      "the accounting model rejects what the implementation did",
-                                      shrunk, det))
+                                      "the model rejects what the implementation did",
+                                      shrunk, det + " || first seen: " + " ;; ".join(first_bad[:2])))
 
 
 RULE = ("per case: `reset`, `cfg` (command, read mode, back-off budget, forwarding, label, liveness, slowness, ts validation, seed, "
         "learner, timeout class, busy threshold, caller flags, sync/async entry), `f <fault>` script lines, `go <tail>` (the stores answer "
         "<tail> forever after the script) run the REAL RegionRequestSender over a 3-store mocktikv cluster with a scripted client and "
         "virtualised sleeping; derived lines: `ev send|bump|backoff|result` (observed loop events; the Lean model must accept each one "
-        "and its rank must decrease) and `prop bounded|genuine|backoffdiscipline|writeflags|retrymarked|tsvalid` (property oracle on each side's own "
+        "and its rank must decrease), `selinit|sel|selend` (forwarding off: the real replica selector's state right after every choice - "
+        "target, per-replica attempts/flag bits, cached leader, read type, request flags, region validity - plus what it reads from the "
+        "store cache; the Lean selector model must have the target in its choice set and predict flags and state exactly, then applies "
+        "the answer's handler) and `prop bounded|genuine|backoffdiscipline|readflags|candidate|writeflags|retrymarked|tsvalid` (property oracle on each side's own "
         "observations). Scripts: exhaustive over a reduced alphabet to length 3 (quick: 2, plus a 9-letter core to 3) / 3 plus core to 5 "
         "(thorough) for 6 read modes x {get, prewrite}, then seeded random scripts to length 30 over the full alphabet with random "
         "configurations; every answer of the full 40-letter alphabet (all field/content-dependent branches of onRegionError/onSendFail: "
@@ -148,8 +203,11 @@ RULE = ("per case: `reset`, `cfg` (command, read mode, back-off budget, forwardi
         "traces_validated = cases; distinct = distinct op lines")
 
 ASSUMPTIONS = [
-    "replica SCORING is not modelled: the model does not predict which replica is chosen, it only accounts for it (per-replica attempts, "
-    "back-off budget, leader-hint allowance) and checks the flags of what was sent",
+    "the replica selector (candidates, score, fallbacks, flags, handlers' effect on selector state) IS modelled (Model/Selector.lean) for "
+    "forwarding OFF; with forwarding on (proxy selection, ReplicaSelectLeaderWithProxyStrategy) only the accounting model is tied",
+    "what the selector READS from the store cache (liveness, slowness, store-epoch staleness, label match, learner role, estimated wait "
+    "over threshold) is an input refreshed from the implementation before every choice: health feedback, slow-score arithmetic, "
+    "liveness probing and store re-resolution are not modelled; equal-score random choice is modelled as a choice set",
     "the theorems are about the accounting model; that the real retry loop's event sequences are accepted by the model is checked on the "
     "explored scripts only (exhaustive-small + sampled), not proved",
     "boundedness is relative to the number H of NotLeader replies that carry a leader hint: the model grants one attempt refill "
@@ -175,7 +233,6 @@ def run(a):
                 c.cov["input_distribution"] = st
                 m = c.run_model(exe, ops)
                 if m:
-                    c.diff(ops, impl, m, stateful=True, max_report=0)   # counting only
                     triage(c, ops, impl, m, hbin, exe)
                     c.cov["programs"] = 1
                     c.cov["exhaustive"] = False
@@ -204,6 +261,5 @@ def replay(a):
     for o, i, mm in zip(open(ops).read().splitlines(), open(impl).read().splitlines(), open(m).read().splitlines()):
         if i != mm or i.startswith("FAIL") or o.startswith("#") or is_input(o) or o.startswith("prop") or o.startswith("ev result"):
             print(f"{o}\n   impl : {i}\n   model: {mm}")
-    c.diff(ops, impl, m, stateful=True, max_report=0)
     triage(c, ops, impl, m, hbin, exe)
     return c.finish()
